@@ -4,7 +4,7 @@
 (* cases that the harness executes on the real code.                                                        *)
 EXTENDS Transform, Json
 
-CONSTANT Full          \* TRUE: full product targets x translations x tokens x undo modes (thorough tier)
+CONSTANT Full          \* TRUE: full product targets x translations x tokens, undo none / two / one by translation (thorough tier)
 (* deviation constants: behaviour of the code as shipped when this check was built (documented findings).    *)
 (* With all of them FALSE the implementation-shaped motion below IS the contract motion.                    *)
 CONSTANTS DEV_SmallAngleLinearised,   \* translation_rotation_matrix uses cos = 1, sin = a for |a| <= 0.05
@@ -27,7 +27,8 @@ Case(g, tt, r, m, u) == [tgt |-> g, t |-> tt, rot |-> r, mix |-> m, undo |-> u]
 AllT == Targets(World)
 Cases ==
     (IF Full
-     THEN {Case(g, tt, r, Roles, u) : g \in AllT, tt \in Trans, r \in Rot, u \in {"none", "two", "one"}}
+     THEN {Case(g, tt, r, Roles, IF tt = <<0, 0>> THEN "none" ELSE IF tt = <<3, -2>> THEN "two" ELSE "one") :
+                g \in AllT, tt \in Trans, r \in Rot}
      ELSE {Case(g, <<3, -2>>, r, Roles, IF Len(g) = 1 THEN "two" ELSE "none") : g \in AllT, r \in Rot}
           \cup {Case(g, <<-50, 70>>, r, Roles, u) : g \in AllT, r \in RotSample, u \in {"two", "one"}}
           \cup {Case(g, <<0, 0>>, r, Roles, "none") : g \in AllT, r \in RotSample})
